@@ -1,0 +1,100 @@
+//go:build verif
+
+package partition
+
+// Contracts of the partition-file parser that serve C04 as well as C03 (moved here from zz_contracts_verif.go and
+// extended): WHAT the parser hands to PartitionSet.AddRange for each textual interval.
+//
+// Vocabulary. The value of a DECIMAL token is str_atoi(lit): the integer strconv.ParseInt(lit, 10, 64) returns
+// (assumed contract in specs/externs.spec: ParseInt is a function of its arguments; it succeeds exactly on str_dec64).
+
+// ---- the token log (ghost state of a Parser) ----
+// gf(ptn, p) = number of tokens handed to the parser so far (scan adds one, unscan takes one back),
+// gfa(pttk, p, i) / gfa(pttv, p, i) = kind / decimal value str_atoi(lit) of the i-th token of the file.
+// The log is written by `ghostset` assignments at the returns of scan and unscan (auxiliary variables);
+// a token handed out again after unscan is the one already logged, so the log is the token sequence of the file.
+//@ ghostzero partition.Parser ptn
+//@ pure func ptn(p *Parser) int = gf(ptn, p)
+//@ pure func pttk(p *Parser, i int) int = gfa(pttk, p, i)
+//@ pure func pttv(p *Parser, i int) int = gfa(pttv, p, i)
+// the log is in step with the one-token buffer: a pushed-back token is entry ptn, otherwise the token in the buffer is the last one logged
+//@ pure func ptlogok(p *Parser) bool = ptn(p) >= 0 && (p.buf.n == 1 ==> pttk(p, ptn(p)) == p.buf.tok && pttv(p, ptn(p)) == str_atoi(p.buf.lit)) && (p.buf.n == 0 && ptn(p) >= 1 ==> pttk(p, ptn(p) - 1) == p.buf.tok && pttv(p, ptn(p) - 1) == str_atoi(p.buf.lit))
+// every entry of the log but entry k is what it was at function entry
+//@ pure func ptlogkept(p *Parser, k int) bool = forall i :: i != k ==> pttk(p, i) == old(pttk(p, i)) && pttv(p, i) == old(pttv(p, i))
+
+// Scan: either the end-of-file token, or at least one rune has been consumed; the token is one of the declared kinds;
+// a DECIMAL token is exactly an identifier whose text parses as a 64-bit decimal integer
+//@ func (*Scanner).Scan
+//@   props C03 C04
+//@   requires ptsok(s)
+//@   ensures ptsok(s) && s.r == old(s.r) && ptrem(s) <= old(ptrem(s))
+//@   ensures tok == EOF || ptrem(s) < old(ptrem(s))
+//@   ensures tok == EOF || tok == ENDOFLINE || tok == SEPARATOR || tok == EQUAL || tok == RANGE || tok == MODULO || tok == IDENTIFIER || tok == DECIMAL
+//@   ensures tok == IDENTIFIER || tok == DECIMAL ==> len(lit) >= 1
+//@   ensures tok == DECIMAL ==> str_dec64(lit)
+//@   ensures tok == IDENTIFIER ==> !str_dec64(lit)
+//@   modifies gfield(s.r, rem), gfield(s.r, unread), gf(buflen), gfa(bufdata)
+//@   loop 1
+//@     invariant ptsok(s) && s.r == old(s.r) && ptrem(s) <= old(ptrem(s))
+//@     invariant ch != 0 ==> ptrem(s) < old(ptrem(s)) && gfield(s.r, unread) == 1
+//@     decreases ptrem(s) + (ch == ' ' ? 1 : 0)
+
+// scan: the end-of-file token, or the progress measure strictly decreases; the token returned is the one kept for unscan.
+// Token log: the token is entry old(ptn) of the log, no other entry changes (and after an unscan not even that one: it is the same token)
+//@ func (*Parser).scan
+//@   props C03 C04
+//@   requires ptpok(p)
+//@   ghostset gfa(pttk, p, gf(ptn, p)) := tok
+//@   ghostset gfa(pttv, p, gf(ptn, p)) := str_atoi(lit)
+//@   ghostset gf(ptn, p) := gf(ptn, p) + 1
+//@   ensures ptpok(p) && p.s == old(p.s) && p.s.r == old(p.s.r) && ptM(p) <= old(ptM(p)) && p.buf.n == 0
+//@   ensures tok == EOF || ptM(p) < old(ptM(p))
+//@   ensures tok == p.buf.tok && lit == p.buf.lit
+//@   ensures ptn(p) == old(ptn(p)) + 1 && pttk(p, old(ptn(p))) == tok && pttv(p, old(ptn(p))) == str_atoi(lit) && ptlogkept(p, old(ptn(p)))
+//@   ensures tok == DECIMAL ==> str_dec64(lit)
+//@   modifies p.buf.n, p.buf.tok, p.buf.lit, gfield(p.s.r, rem), gfield(p.s.r, unread), gf(buflen), gfa(bufdata), gf(ptn; p), gfa(pttk; p), gfa(pttv; p)
+
+// unscan pushes back the token just scanned (the parser never calls it twice in a row, nor before the first scan)
+//@ func (*Parser).unscan
+//@   props C03 C04
+//@   requires ptpok(p) && p.buf.n == 0 && ptn(p) >= 1
+//@   ghostset gf(ptn, p) := gf(ptn, p) - 1
+//@   ensures ptpok(p) && p.buf.n == 1 && ptrem(p.s) == old(ptrem(p.s)) && p.s == old(p.s) && p.s.r == old(p.s.r)
+//@   ensures ptn(p) == old(ptn(p)) - 1 && ptlogkept(p, -1)
+//@   modifies p.buf.n, gf(ptn; p)
+
+// ---- what an interval means ----
+// An interval is `a`, `a-b`, `a/k` or `a-b/k` (DECIMAL [RANGE DECIMAL] [MODULO DECIMAL]) and follows '=' or ','.
+// ptival(p, e, a, b, k): the tokens ending at index e of the log, read backwards, are an interval with first site a, last site b
+// (b == a for a single site) and step k (1 when the interval has no '/k').
+//@ pure func ptsep(t int) bool = t == EQUAL || t == SEPARATOR
+//@ pure func ptab(p *Parser, e int, a int, b int) bool = pttk(p, e) == DECIMAL && (pttk(p, e - 1) == RANGE ? b == pttv(p, e) && pttk(p, e - 2) == DECIMAL && a == pttv(p, e - 2) && ptsep(pttk(p, e - 3)) : a == pttv(p, e) && b == a && ptsep(pttk(p, e - 1)))
+//@ pure func ptival(p *Parser, e int, a int, b int, k int) bool = pttk(p, e) == DECIMAL && (pttk(p, e - 1) == MODULO ? k == pttv(p, e) && ptab(p, e - 2, a, b) : k == 1 && ptab(p, e, a, b))
+
+// parse: terminates on every input; the partition set stays a well-formed map over the same length (C03).
+// C04: every AddRange call is made for an interval of the file, with exactly start = a - 1, end = b - 1 (1-based to 0-based)
+// and modulo = k, k == 1 when the interval carries no '/k' (the step does not leak from one interval to the next);
+// the partition and model names are those of the current line.
+//@ func (*Parser).parse
+//@   props C03 C04
+//@   arith wrap64
+//@   requires ptpok(p) && wfps(ps)
+//@   ensures wfps(ps) && ps.length == old(ps.length)
+//@   modifies p.buf.n, p.buf.tok, p.buf.lit, gfield(rem), gfield(unread), gf(buflen), gfa(bufdata), gf(ptn; p), gfa(pttk; p), gfa(pttv; p), ps.names, ps.models, ps.names[+], ps.models[+], ps.partitions[*]
+// the three numbers of an interval are read from DECIMAL tokens, whose text always parses: the ignored error of ParseInt is nil
+//@   assert_at strconv.ParseInt 1 : tok == DECIMAL && arg0 == lit && str_dec64(arg0)
+//@   assert_at strconv.ParseInt 2 : tok == DECIMAL && arg0 == lit && str_dec64(arg0)
+//@   assert_at strconv.ParseInt 3 : tok == DECIMAL && arg0 == lit && str_dec64(arg0)
+// the token in hand is the one after the interval: the interval ends at index ptn - 2 of the log
+//@   assert_at github.com/evolbioinfo/goalign/align.(*PartitionSet).AddRange 1 : ptival(p, ptn(p) - 2, start, end, modulo)
+//@   assert_at github.com/evolbioinfo/goalign/align.(*PartitionSet).AddRange 1 : (start > -9223372036854775808 ==> arg3 == start - 1) && (end > -9223372036854775808 ==> arg4 == end - 1) && arg5 == modulo
+//@   assert_at github.com/evolbioinfo/goalign/align.(*PartitionSet).AddRange 1 : arg1 == partitionName && arg2 == modeleName
+//@   loop 1
+//@     invariant ptpok(p) && p.s == old(p.s) && err == nil && wfps(ps) && ps.length == old(ps.length) && sameslice(ps.partitions, old(ps.partitions)) && nameskept(ps)
+//@     decreases (tok == EOF ? 0 : ptM(p) + 1)
+//@   loop 2
+//@     invariant ptpok(p) && p.s == old(p.s) && err == nil && wfps(ps) && ps.length == old(ps.length) && sameslice(ps.partitions, old(ps.partitions)) && nameskept(ps)
+//@     invariant tok == EOF || ptM(p) + 1 < $variant1
+//@     invariant p.buf.n == 0 && ptn(p) >= 2 && tok == pttk(p, ptn(p) - 1) && pttv(p, ptn(p) - 1) == str_atoi(lit) && (tok == DECIMAL ==> str_dec64(lit))
+//@     invariant tok != ENDOFLINE && tok != EOF ==> ptsep(pttk(p, ptn(p) - 2))
+//@     decreases (tok == EOF || tok == ENDOFLINE ? 0 : ptM(p) + 1)
